@@ -355,13 +355,45 @@ func (r *asmRun) exec() {
 			default:
 				r.cmp = 1
 			}
-		case "JLE":
+		case "TESTQ":
+			// flags of (a AND b) for two scalar registers holding concrete values (the index is concrete in each run):
+			// ZF -> cmp = 0, SF -> cmp = -1 (OF is cleared, so JLE is taken iff ZF or SF)
+			if len(a) != 2 {
+				r.fail(in, "two operands expected")
+				return
+			}
+			g0, ok0 := r.regs[a[0]]
+			g1, ok1 := r.regs[a[1]]
+			if !ok0 || !ok1 || g0.isPtr || g1.isPtr {
+				r.fail(in, "only TESTQ of two scalar registers is modelled")
+				return
+			}
+			switch v := g0.val & g1.val; {
+			case v == 0:
+				r.cmp = 0
+			case int64(v) < 0:
+				r.cmp = -1
+			default:
+				r.cmp = 1
+			}
+		case "JLE", "JEQ", "JE", "JZ", "JNE", "JNZ", "JMP":
 			t, ok := r.fn.labels[a[0]]
 			if !ok {
 				r.fail(in, "unknown label")
 				return
 			}
-			if r.cmp <= 0 {
+			taken := false
+			switch in.op {
+			case "JLE":
+				taken = r.cmp <= 0
+			case "JEQ", "JE", "JZ":
+				taken = r.cmp == 0
+			case "JNE", "JNZ":
+				taken = r.cmp != 0
+			case "JMP":
+				taken = true
+			}
+			if taken {
 				pc = t
 			}
 		default:
